@@ -178,8 +178,19 @@ def files_oracle(ctx, rnd, tmp, big):
         nsweeps = rnd.choice([1, 1, 2, 3])
         # consecutive sweeps of one measurement cover the same frequency grid
         f0, _z = spectrum(rnd, rnd.choice([1, 2, 3, 5, 12]) if nsweeps == 1 else rnd.choice([2, 3, 5]))
-        sweeps = [(f0, spectrum(rnd, len(f0))[1]) for _ in range(nsweeps)]
         asc = rnd.random() < 0.5
+        if nsweeps > 1 and rnd.random() < 0.5:
+            # sweeps over different ranges: every junction must break the direction of the rows (the next sweep starts on the
+            # far side of where the previous one ended), otherwise two sweeps are indistinguishable from one
+            sweeps = [(f0, _z)]
+            while len(sweeps) < nsweeps:
+                f1, z1 = spectrum(rnd, rnd.choice([2, 3, 5]))
+                prev = sweeps[-1][0]
+                first_next, last_prev = (f1.min(), prev.max()) if asc else (f1.max(), prev.min())
+                if (first_next < last_prev) if asc else (first_next > last_prev):
+                    sweeps.append((f1, z1))
+        else:
+            sweeps = [(f0, spectrum(rnd, len(f0))[1]) for _ in range(nsweeps)]
         kind = rnd.choice(["cart", "cart", "polar"])
         sep = rnd.choice([",", ";", "\t", " "])
         decimal = rnd.choice([".", ","]) if sep != "," else "."
@@ -203,7 +214,9 @@ def files_oracle(ctx, rnd, tmp, big):
         try:
             kw = {}
             if decimal == ",":
-                kw = dict(sep=sep, decimal=",")
+                # either pandas converts the decimal commas (numeric cells) or the library's own conversion of text cells does
+                r_ = rnd.random()
+                kw = dict(sep=sep, decimal=",") if r_ < 0.4 else (dict(sep=sep) if r_ < 0.8 else {})
             elif sep != ",":
                 kw = dict(sep=sep) if rnd.random() < 0.5 else {}
             ds = parse_data(path, **kw)
